@@ -278,6 +278,36 @@ class OpaqueV(V):
         return f"Opaque<{self.tag}>"
 
 
+class DateV(OpaqueV):
+    """A calendar date with symbolic components: equal dates are dates with equal components."""
+
+    def __init__(self, tag, y, m, d):
+        super().__init__(tag)
+        self.kinds = {"date"}
+        self.y, self.m, self.d = y, m, d
+
+    def __repr__(self):
+        return f"Date<{self.tag}>"
+
+
+class RegexV(V):
+    """A compiled pattern of the repository (data, interpreted by the checker's own matcher)."""
+
+    def __init__(self, pattern: str, flags: int):
+        self.pattern, self.flags = pattern, flags
+
+    def __repr__(self):
+        return f"Regex<{self.pattern[:30]!r}>"
+
+
+class MatchV(V):
+    """A match of a reader pattern on an opaque text: its groups are the pieces of the text form."""
+
+    def __init__(self, regex: RegexV, text, profile: dict, concrete=None):
+        self.regex, self.text, self.profile, self.concrete = regex, text, profile, concrete
+        self.pieces = {}
+
+
 class SIPrefixV(V):
     def __init__(self, name="p"):
         self.name = name
